@@ -26,7 +26,7 @@ static void phase(size_t lo, size_t hi) {
   pthread_barrier_destroy(&g_bar);
 }
 int main() {
-  add_module_ops(g_ops, {4, 16});
+  add_module_ops(g_ops, {4, 16, 1024});
   add_table_ops(g_ops);
   size_t nmod = g_ops.size();
   add_simple_ops(g_ops);
